@@ -590,9 +590,9 @@ func extractHops() {
 		drop := gUnknown(site + " guard")
 		bump := ""
 		if fd := p.fn("pipe", "receiver"); fd != nil {
-			nm := mapNamer(map[string]string{"len(m.Body)": "blen", "m.Body[0]": "b0", "m.Body[1]": "b1", "m.Body[2]": "b2", "m.Body[3]": "b3", "s.ttl": "ttl"})
+			nm := mapNamer(map[string]string{"len(m.Body)": "blen", "m.Body[0]": "b0", "m.Body[1]": "b1", "m.Body[2]": "b2", "m.Body[3]": "b3", "s.ttl": "ttl", "ttl": "ttl"})
 			walkIfs(fd, func(s *ast.IfStmt) {
-				if strings.Contains(exprString(s.Cond), "s.ttl") {
+				if strings.Contains(exprString(s.Cond), "ttl") {
 					drop = toG(s.Cond, nm)
 				}
 			})
